@@ -47,6 +47,17 @@ type Clause struct {
 	Class  string
 }
 
+// GhostUpdate: at function exit, ghost field <Name> is set.
+//   ghost <name>(<ptr expr>) = func(i int) *T { return <expr> }   sequence-valued ghost field of one object
+//   ghost <name>(<ptr expr>) = <int expr>                          int-valued ghost field of one object
+//   ghost <name>(*) = func(e *T) int { return <expr> }             int-valued ghost field of every object
+type GhostUpdate struct {
+	Name   string
+	Target string // "*" or pointer expression text
+	Clause *Clause
+	All    bool
+}
+
 type LoopSpec struct {
 	Invariants []*Clause
 	Decreases  []*Clause
@@ -63,6 +74,7 @@ type Contract struct {
 	ModeSet    bool
 	Requires   []*Clause
 	Ensures    []*Clause
+	Ghosts     []*GhostUpdate // ghost-state updates applied at exit (the chosen witnesses of the abstract view)
 	Loops      map[int]*LoopSpec
 	Modifies   []string
 	ModSet     bool
@@ -144,6 +156,7 @@ func ite[T any](c bool, a, b T) T                      { if c { return a }; retu
 func addFits(a, b int64) bool                          { c := a + b; return (c > a) == (b > 0) }
 func subFits(a, b int64) bool                          { c := a - b; return (c < a) == (b > 0) }
 func mulFits(a, b int64) bool                          { if a == 0 || b == 0 { return true }; c := a * b; return c/b == a && !(a == -1 && b == -9223372036854775808) && !(b == -1 && a == -9223372036854775808) }
+func mulAbsLtU(a, b int64, bound uint64) bool          { return true }
 func isNaN(x float64) bool                             { return x != x }
 func isInf(x float64) bool                             { return x > 1.797693134862315708145274237317043567981e+308 || x < -1.797693134862315708145274237317043567981e+308 }
 func sameFloat(a, b float64) bool                      { return a == b || (a != a && b != b) }
@@ -164,6 +177,8 @@ func allocated[T any](p *T) bool                       { return true }
 func funcIs(f interface{}, name string) bool           { return true }
 func inClass(f interface{}, class string) bool         { return true }
 func nothingModified() bool                            { return true }
+func ghostInt(p interface{}, name string) int          { return 0 }
+func ghostSeq[U any](p interface{}, name string, i int) *U { return nil }
 func hasKey[K comparable, V any](m map[K]V, k K) bool  { _, ok := m[k]; return ok }
 func ext[T any](name string, idx int, args ...interface{}) T { var z T; return z }
 func allBytes(b []byte, lo int, f func(c byte) bool) bool { for i := lo; i < len(b); i++ { if !f(b[i]) { return false } }; return true }
@@ -175,8 +190,8 @@ func allChars(s string, lo int, f func(c byte) bool) bool { for i := lo; i < len
 var rangeindex int
 `
 
-var preludeNames = []string{"old", "forall", "exists", "forallp", "forallstr", "forallint", "imp", "ite", "addFits", "subFits", "mulFits", "isNaN", "isInf", "sameFloat", "fresh",
-	"typeIs", "streq", "exactDiv", "floorDiv", "popcount", "fabs", "ffloor", "fceil", "fround", "ftrunc", "reachable", "unchanged", "allocated", "funcIs", "inClass", "nothingModified", "rangeindex", "allBytes", "allChars", "rangeBytes", "rangeChars", "ext", "hasKey"}
+var preludeNames = []string{"old", "forall", "exists", "forallp", "forallstr", "forallint", "imp", "ite", "addFits", "subFits", "mulFits", "mulAbsLtU", "isNaN", "isInf", "sameFloat", "fresh",
+	"typeIs", "streq", "exactDiv", "floorDiv", "popcount", "fabs", "ffloor", "fceil", "fround", "ftrunc", "reachable", "unchanged", "allocated", "funcIs", "inClass", "nothingModified", "rangeindex", "allBytes", "allChars", "rangeBytes", "rangeChars", "ext", "hasKey", "ghostInt", "ghostSeq"}
 
 func pkgDirOf(short string) string { return filepath.Join(repoDir, "pkg", short) }
 
@@ -265,6 +280,22 @@ func (cs *ContractSet) parseFile(file string) error {
 			cur.Requires = append(cur.Requires, mk("requires", rest))
 		case "ensures":
 			cur.Ensures = append(cur.Ensures, mk("ensures", rest))
+		case "ghost":
+			// ghost name(target) = value
+			lp := strings.Index(rest, "(")
+			eqi := strings.Index(rest, ") = ")
+			if lp < 0 || eqi < lp {
+				return fmt.Errorf("%s:%d: bad ghost clause", file, ln+1)
+			}
+			g := &GhostUpdate{Name: strings.TrimSpace(rest[:lp]), Target: strings.TrimSpace(rest[lp+1 : eqi])}
+			val := strings.TrimSpace(rest[eqi+4:])
+			if g.Target == "*" {
+				g.All = true
+				g.Clause = mk("ghost", val)
+			} else {
+				g.Clause = mk("ghost", "[]interface{}{"+g.Target+", "+val+"}")
+			}
+			cur.Ghosts = append(cur.Ghosts, g)
 		case "loop":
 			var k int
 			var kind string
@@ -539,6 +570,10 @@ func rewriteSugar(e ast.Expr) ast.Expr {
 			x.X = rw(x.X)
 		case *ast.TypeAssertExpr:
 			x.X = rw(x.X)
+		case *ast.CompositeLit:
+			for i := range x.Elts {
+				x.Elts[i] = rw(x.Elts[i])
+			}
 		case *ast.FuncLit:
 			for _, s := range x.Body.List {
 				if r, ok := s.(*ast.ReturnStmt); ok {
@@ -776,6 +811,16 @@ func (cs *ContractSet) buildOverlay() error {
 					return err
 				}
 			}
+			for _, g := range c.Ghosts {
+				e, err := parseSugared(g.Clause.Text)
+				if err != nil {
+					return fmt.Errorf("%s:%d: %v\n  %s", g.Clause.File, g.Clause.Line, err, g.Clause.Text)
+				}
+				n++
+				g.Clause.Name = fmt.Sprintf("verif__ghost_%d", n)
+				g.Clause.Params = postNames
+				fmt.Fprintf(&b, "func %s(%s) interface{} { return %s }\n", g.Clause.Name, post, exprString(fset, e))
+			}
 			for i, kf := range cs.KFs {
 				if kf.Func == c.Qual && kf.Region != "" {
 					cl := &Clause{Text: kf.Region, Kind: "kfregion", File: "known_findings.json", Line: i + 1}
@@ -878,6 +923,11 @@ func (cs *ContractSet) resolve(l *Loaded) []string {
 						for _, cl := range append(append([]*Clause{}, c.Requires...), c.Ensures...) {
 							if c.Pkg == short && cl.Name == fd.Name.Name {
 								cl.Expr, cl.Info = ret, p.TypesInfo
+							}
+						}
+						for _, g := range c.Ghosts {
+							if c.Pkg == short && g.Clause.Name == fd.Name.Name {
+								g.Clause.Expr, g.Clause.Info = ret, p.TypesInfo
 							}
 						}
 					}
